@@ -492,3 +492,14 @@ package codegen
 //@ const CapabilityInt64 11
 //@ const CapabilityInt16 22
 //@ const CapabilityInt8 39
+
+// ---- SPIR-V 1.4+: every global the entry point uses is in its interface list (C17, C02) ----------
+//
+// From SPIR-V 1.4 on, OpEntryPoint lists every module-scope variable the entry
+// point's call tree references, whatever its storage class. Each used global
+// that has an id is appended - none is filtered out.
+//
+//@ func (*Backend).emitEntryPoints
+//@   mode bv
+//@   tags C17 C02
+//@   loop 5 step [every-used-global-listed] has(b.globalIDs, prev(usedGlobals[rangeindex+1])) ==> len(interfaces) == prev(len(interfaces)) + 1 && interfaces[len(interfaces)-1] == b.globalIDs[prev(usedGlobals[rangeindex+1])]
